@@ -6,9 +6,11 @@ dirs=("$@"); [ ${#dirs[@]} -eq 0 ] && dirs=(seeded/*/)
 missed=0
 for d in "${dirs[@]}"; do
   n=$(basename "$d"); prop=${n%-*}
+  # a seed whose defect is only visible to another property's check names it in meta.json ("check")
+  alt=$(python3 -c "import json;print(json.load(open('/verif/seeded/$n/meta.json')).get('check',''))" 2>/dev/null); [ -n "$alt" ] && prop=$alt
   if [ -n "$(git -C /repo status --porcelain)" ]; then echo "/repo not clean"; exit 2; fi
   git -C /repo apply "/verif/seeded/$n/patch.diff" || { echo "NOAPPLY $n"; continue; }
-  out=$(./check "$prop" 2>&1 | tail -3)
+  out=$(./check "$prop" 2>&1 | grep -m1 "VIOLATION property=$prop")
   git -C /repo checkout -- .
   if echo "$out" | grep -q "VIOLATION property=$prop"; then echo "caught $n"; else echo "MISSED $n"; missed=$((missed+1)); fi
 done
